@@ -394,6 +394,11 @@ func (e *Engine) Sweep(tier string, seed uint64, res *report.Result) {
 			What: "the relation measured on Proxy.Differs does not recognise a proxy's bound/configured address as the spelling it came from: hypothesis spellingOK of theorem C17_spelling fails",
 			Sig:  "e4:spellingOK"})
 	}
+	if !e.PortsOK {
+		res.Failures = append(res.Failures, report.Failure{Kind: "disagreement", Ops: []string{"(address table)"},
+			What: "an address reported by a started listener is not a spelling of the measured address table with the same port: hypothesis boundOK of theorem C05_reachable_ports fails",
+			Sig:  "e4:boundOK"})
+	}
 	for _, c := range Corpus {
 		var ops []string
 		for _, l := range c {
